@@ -113,12 +113,19 @@ class Ctx:
             t0 = time.time()
             cmd = ['clang', '-g', '-O1', '-fsanitize=address,undefined', '-fno-sanitize-recover=all', '-fno-omit-frame-pointer',
                    '-I', os.path.join(VERIF, 'pam', 'stubs'), '-o', out, os.path.join(REPO, 'pam', 'pam_whawty.c'),
-                   os.path.join(VERIF, 'pam', 'harness.c'), '-Wl,--wrap=select,--wrap=read,--wrap=write']
+                   os.path.join(VERIF, 'pam', 'harness.c'), '-Wl,--wrap=select,--wrap=read,--wrap=write,--wrap=send']
             p = subprocess.run(cmd, stdout=subprocess.PIPE, stderr=subprocess.STDOUT, text=True)
             if p.returncode != 0:
                 raise HarnessError('pamh build failed:\n' + p.stdout[-3000:])
             log('pamh built in %.1fs' % (time.time() - t0))
             self._built['pamh'] = out
+            # uninstrumented build for valgrind memcheck (thorough tier)
+            plain = os.path.join(self.work, 'bin', 'pamh-plain')
+            cmd2 = ['clang', '-gdwarf-4', '-O0', '-I', os.path.join(VERIF, 'pam', 'stubs'), '-o', plain, os.path.join(REPO, 'pam', 'pam_whawty.c'),
+                    os.path.join(VERIF, 'pam', 'harness.c'), '-Wl,--wrap=select,--wrap=read,--wrap=write,--wrap=send']
+            p2 = subprocess.run(cmd2, stdout=subprocess.PIPE, stderr=subprocess.STDOUT, text=True)
+            if p2.returncode != 0:
+                raise HarnessError('pamh-plain build failed:\n' + p2.stdout[-3000:])
         return self._built['pamh']
 
     # ------------------------------------------------------------------ run
